@@ -99,6 +99,22 @@ def near(a, b, tol):
     return B.const(bool(np.all(np.abs(a - b) <= max(tol, FLOAT_RTOL) * 4)))
 
 
+def within_disc(z, tol, ndir=16):
+    """|z| <= tol for a complex scalar z (field Q(i)), as the LINEAR sufficient condition  Re(z e^{-i theta_k}) <= tol cos(pi/ndir)
+    for ndir directions theta_k (the regular ndir-gon inscribed in the disc of radius tol)"""
+    import math
+    if isinstance(z, SymK):
+        re, im = z.c[0], z.c[1]
+        lim = Fraction(float(tol) * math.cos(math.pi / ndir))
+        outs = []
+        for k in range(ndir):
+            th = 2 * math.pi * k / ndir
+            e = re.scale(Fraction(math.cos(th))) + im.scale(Fraction(math.sin(th))) - Rat.const(lim)
+            outs.append(B.cmp("<=", e.sign_poly()))
+        return B.and_(*outs)
+    return B.const(abs(complex(z)) <= float(tol) * (1 + 1e-9))
+
+
 def _real_rat(x, what="ordering"):
     return _lift(x)._re(what)
 
